@@ -144,6 +144,14 @@ def base_state(s, kind=''):
     s.do(op='rc_post', v=39, name='CUSTOM_RC1')
     s.put('c3', {'p1': {'VCPU': 1}, 'p3': {'DISK_GB': 5}})
     s.put('c4', {'p3': {'VCPU': 1}}, project='proj2', user='user2', ctype='MIGRATION')
+    if kind == 'C06':
+        # c4 one generation ahead of c3: a multi-consumer write must check each
+        # consumer against its own generation
+        s.put('c4', {'p3': {'VCPU': 1}}, project='proj2', user='user2', ctype='MIGRATION')
+        # the newest allocation row belongs to a consumer no race touches: SQLite hands out
+        # max(id)+1, and without it rows written by one request could get the ids another
+        # request is about to delete (no production DBMS re-uses ids like that)
+        s.put('c5', {'p2': {'DISK_GB': 1}}, project='proj3', user='user2')
     if kind == 'C09':
         # a deeper hierarchy for the races between moves
         s.mk('p7', 'p2')
@@ -264,12 +272,19 @@ def corpus(kind, s, tier, rnd):
                               s.entry('c2', {'p2': {'DISK_GB': 1}}, cgen=-1)]),
             'reshape_cur': reshape([s.entry('c3', {'p2': {'DISK_GB': 4}}, cgen=g3)]),
             'del': dict(op='alloc_del', v=39, c='c3'),
+            'post_c3_c4': post([s.entry('c3', {'p1': {'VCPU': 2}}, cgen=g3),
+                                s.entry('c4', {'p3': {'VCPU': 2}}, cgen=s.cgen('c4'), project='proj2', user='user2',
+                                        ctype='MIGRATION')]),
+            'reshape_c3_c4': reshape([s.entry('c3', {'p2': {'DISK_GB': 2}}, cgen=g3),
+                                      s.entry('c4', {'p2': {'DISK_GB': 3}}, cgen=s.cgen('c4'), project='proj2',
+                                              user='user2', ctype='MIGRATION')]),
         }
         for vs in (new_variants, old_variants):
             ks = sorted(vs)
             for i, a in enumerate(ks):
                 for b in ks[i:]:
-                    if tier == 'quick' and rnd.random() < 0.45 and not (a.startswith('put') and b.startswith('put')):
+                    if tier == 'quick' and rnd.random() < 0.45 and not (a.startswith('put') and b.startswith('put')) \
+                            and not ({a, b} & {'post_c3_c4', 'reshape_c3_c4'} and {a, b} & {'put_cur', 'put_cur_b'}):
                         continue
                     out.append(('%s|%s' % (a, b), [dict(vs[a]), dict(vs[b])]))
         out.append(('put_null|put_null_b|put_gen0', [dict(new_variants[k]) for k in ('put_null', 'put_null_b', 'put_gen0')]))
